@@ -201,7 +201,7 @@ def shard(ctx):
     try:
         def factory(ctx):
             @given(synth.program(max_funcs=5 if q else 8, max_ops=10 if q else 24), st.sampled_from([0, 0, 3]),
-                   st.sampled_from(RATES + [2, 2, 3]), st.integers(0, 2**31))
+                   st.sampled_from([2, 3, None, 10, 2, 1, 100, 3, 2]), st.integers(0, 2**31))  # None/1 not first: Hypothesis correlates 'simplest' draws
             def test(prog, k, rate, seed):
                 run_case(ctx, prog, k, rate, seed, sc)
             return test
